@@ -106,6 +106,12 @@ SyntaxVisitor::Action DeclarationBinder::visit_AtSpecifiers_COMMON(
         diagReporter_.TypeSpecifierMissingDefaultsToInt(node->lastToken());
         pushType(makeType<BasicType>(BasicTypeKind::Int_S));
     }
+    else if (F_.inImplicitDoubleTySpec_
+                && tys_.top()->kind() == TypeKind::Basic
+                && tys_.top()->asBasicType()->kind() == BasicTypeKind::LongDoubleComplex) {
+        // A long and a _Complex whose double never came.
+        diagReporter_.InvalidType(node->lastToken());
+    }
 
     for (auto specIt = node->specifiers(); specIt; specIt = specIt->next) {
         if (specIt->value->asTypeQualifier())
@@ -336,10 +342,15 @@ SyntaxVisitor::Action DeclarationBinder::visitBasicTypeSpecifier(const BasicType
             case SyntaxKind::Keyword_ExtGNU___complex__:
                 switch (curBasicTyK) {
                     case BasicTypeKind::Long_S:
-                        // The double of a long double _Complex may still follow.
-                        F_.inImplicitDoubleTySpec_ = true;
-                        curBasicTy->resetBasicTypeKind(BasicTypeKind::LongDoubleComplex);
-                        return Action::Skip;
+                        // Only a lone long can still become long double _Complex;
+                        // its double may follow.
+                        if (F_.inImplicitIntTySpec_
+                                && !F_.inExplicitSignedOrUnsignedTySpec_) {
+                            F_.inImplicitDoubleTySpec_ = true;
+                            curBasicTy->resetBasicTypeKind(BasicTypeKind::LongDoubleComplex);
+                            return Action::Skip;
+                        }
+                        break;
                     case BasicTypeKind::LongDouble:
                         curBasicTy->resetBasicTypeKind(BasicTypeKind::LongDoubleComplex);
                         return Action::Skip;
